@@ -4,8 +4,8 @@
 // outputs of lexer.Colorize / lexer.ColorizeEmbellishedText are recorded for a bounded-exhaustive
 // family of byte strings (all strings over the core atoms up to the tier's length, all strings over
 // all atoms up to length 2, plus seeded longer strings) and every recorded event must be a step of
-// the specification (LexSpansTrace.tla). TLC also model-checks the guards themselves (LexSpans) and
-// the counter mechanism of lexer.go (LexMech) on small instances.
+// the specification (LexSpansTrace.tla). TLC also model-checks the guards themselves (LexSpans) on a
+// small instance.
 package c04
 
 import (
@@ -67,8 +67,7 @@ func run(c *core.Ctx) error {
 	if msg := checkAtoms(allAtoms); msg != "" {
 		return core.Inconclusivef("%s", msg)
 	}
-	// ---- 1. the specification itself: guards imply the invariants; the lexer's counter mechanism
-	// takes only Token steps (and the recorded deviation really breaks the property in the model)
+	// ---- 1. the specification itself: the guards imply the invariants
 	if err := modelCheck(c); err != nil {
 		return err
 	}
